@@ -61,6 +61,14 @@ theorem C14_legacy (d : Doc) (a : AccState) (hd : d.clientProperties = none) (h 
     simp [isAdmin, g1]
   · cases h
 
+/-- … and such files do load: for every saved state, the document without its
+    `client_properties` member (what a version before permissions wrote) loads, with the same
+    identity, keys and recorded identifier bytes, and permission 1 for every paired controller. -/
+theorem C14_legacy_loads (a : AccState) (h : WF a) :
+    load { persist a with clientProperties := none } =
+      some { a with ps := { a.ps with props := a.ps.paired.map fun e => (e.1, 1) } } :=
+  load_persist_legacy a h
+
 /-- Behaviour after a restart: on the reloaded state the list-pairings answer, the admin test and
     the long-term key looked up by pair-verify are those of the saved state. -/
 theorem C14_behaviour (a : AccState) (h : WF a) :
